@@ -55,6 +55,9 @@ pub struct Case {
     pub plan: Vec<(u32, u8)>,
     #[serde(default)]
     pub relative: bool,
+    /// also run every plan that adds one more preemption at a later decision
+    #[serde(default)]
+    pub expand: bool,
 }
 
 fn idof(sel: u8) -> u64 {
@@ -474,13 +477,33 @@ impl Prop for C05 {
                 th.push((OpK::GetWithMeta, focus));
             }
         }
-        Case { strat, shape, threads, plan, relative: true }
+        Case { strat, shape, threads, plan, relative: true, expand: false }
     }
     fn run(&self, case: &Case, env: &CaseEnv) -> Result<CaseReport, Failure> {
         let mut rep = CaseReport::default();
         let (out, t) = execute(case, env)?;
         judge(case, &out, &t, &mut rep)?;
         rep.count("decisions", out.decisions as u64);
+        if case.expand && !case.relative {
+            let last = case.plan.iter().map(|(d, _)| *d).max().unwrap_or(0);
+            for (d, (alts, me_ready)) in out.trace.iter().enumerate() {
+                if (d as u32) > last && *alts > 1 && *me_ready {
+                    for alt in 1..(*alts).min(3) {
+                        let mut c = case.clone();
+                        c.expand = false;
+                        c.plan.push((d as u32, alt));
+                        let (o2, t2) = execute(&c, env)?;
+                        judge(&c, &o2, &t2, &mut rep).map_err(|mut f| {
+                            f.msg = format!("[plan {:?}] {}", c.plan, f.msg);
+                            f
+                        })?;
+                        drop(t2);
+                        let _ = std::fs::remove_dir_all(env.scratch_root().join("r"));
+                        rep.count("evaluations_judged", 1);
+                    }
+                }
+            }
+        }
         // overlap: some write/delete interval intersects another op on the same id
         let mut spans: Vec<(usize, usize, usize, bool, u64)> = vec![];
         let mut open: HashMap<usize, (usize, bool, u64)> = HashMap::new();
@@ -509,13 +532,26 @@ fn pair_cases(ctx: &Ctx) -> Vec<Case> {
                 for b in OPS {
                     for sel in 0..2u8 {
                         // second thread: same id, preceded by a write so that there is a fresh version to lose
-                        combos.push(Case { strat: s, shape: sh, threads: vec![vec![(*a, sel)], vec![(*b, sel)]], plan: vec![], relative: false });
-                        combos.push(Case { strat: s, shape: sh, threads: vec![vec![(OpK::Write, sel), (*a, sel)], vec![(*b, sel)]], plan: vec![], relative: false });
+                        combos.push(Case { strat: s, shape: sh, threads: vec![vec![(*a, sel)], vec![(*b, sel)]], plan: vec![], relative: false, expand: false });
+                        combos.push(Case { strat: s, shape: sh, threads: vec![vec![(OpK::Write, sel), (*a, sel)], vec![(*b, sel)]], plan: vec![], relative: false, expand: false });
                     }
                 }
             }
         }
     }
+    // three threads: writer, deleter and a maintenance drain on the same id, complete at
+    // preemption bound 2 (single-preemption prefixes are expanded by one more preemption)
+    let ntriple = combos.len();
+    for s in [Strat::Lru, Strat::LearnedTrained] {
+        for sh in 0..2u8 {
+            for sel in 0..2u8 {
+                for third in [OpK::Drain, OpK::GetWithMeta, OpK::Write] {
+                    combos.push(Case { strat: s, shape: sh, threads: vec![vec![(OpK::Write, sel)], vec![(OpK::Delete, sel)], vec![(third, sel)]], plan: vec![], relative: false, expand: true });
+                }
+            }
+        }
+    }
+    let _ = ntriple;
     let env = ctx.env(false);
     let next = std::sync::atomic::AtomicUsize::new(0);
     let out: std::sync::Mutex<Vec<(usize, Vec<Case>)>> = std::sync::Mutex::new(vec![]);
@@ -535,9 +571,11 @@ fn pair_cases(ctx: &Ctx) -> Vec<Case> {
                     let o = sched::run(programs(&t.engine, &base.threads), &[]);
                     for (d, (alts, me_ready)) in o.trace.iter().enumerate() {
                         if *alts > 1 && *me_ready {
-                            let mut c = base.clone();
-                            c.plan = vec![(d as u32, 1)];
-                            v.push(c);
+                            for alt in 1..(*alts).min(3) {
+                                let mut c = base.clone();
+                                c.plan = vec![(d as u32, alt)];
+                                v.push(c);
+                            }
                         }
                     }
                 }
